@@ -229,6 +229,10 @@ def simplify_math_iterators(source: str) -> str:
                 continue
             if node.func.id != "sum":
                 continue
+            _, _, step = _get_range_start_end(arg)
+            if not core.match_template(step, ast.Constant(value=1)):
+                # No closed form is implemented for non-unit steps
+                continue
             yield node, _sum_range(arg)
 
         elif core.match_template(arg, basic_collection_template):
